@@ -66,7 +66,7 @@ CONTRACTS = [
     ),
     OpContract(
         name="map", props=["C05", "C09"], file=OPS + "_map.py", func="map_",
-        call="map_(mapper)(source)", params={"mapper": "callback"},
+        call="map_(mapper)(source)", params={"mapper": "opt:callback"},  # omitted: the identity
         spec="specs.c05:map", inv="True",
         witness="ops.map(mapper)",
     ),
